@@ -136,19 +136,21 @@ Fixpoint lower (s : string) : string :=
   match s with EmptyString => EmptyString | String c r => String (lower_char c) (lower r) end.
 
 (* ---------------------------------------------------------------- device check *)
-(* "cpu" in str(value): for a scalar the text of the value; for a dict its repr, in which
-   "cpu" can only occur inside a key or inside a string value *)
-Fixpoint mentions_cpu (v : cfg) : bool :=
-  match v with
-  | Leaf (JStr s) => contains "cpu" s
-  | Leaf _ => false
-  | Node l =>
-      (fix any (l : items) : bool :=
-         match l with
-         | [] => false
-         | (k, w) :: r => contains "cpu" k || mentions_cpu w || any r
-         end) l
-  end.
+(* str(value) == "cpu" or (str(value).startswith("cpu:") and str(value)[4:].isdigit())
+   (REPAIRED behaviour, see /verif/fixes/C19-cpu-substring.diff: the unrepaired code accepts
+   every value whose text contains "cpu").  The text of None/bool/int/dict values never
+   qualifies. *)
+Definition is_digit (c : ascii) : bool :=
+  let n := nat_of_ascii c in (Nat.leb 48 n && Nat.leb n 57)%bool.
+Fixpoint all_digits (s : string) : bool :=
+  match s with EmptyString => true | String c r => is_digit c && all_digits r end.
+Definition drop4 (s : string) : string :=
+  match s with String _ (String _ (String _ (String _ r))) => r | _ => EmptyString end.
+Definition cpu_text (s : string) : bool :=
+  String.eqb s "cpu" ||
+  (is_prefix "cpu:" s && negb (String.eqb (drop4 s) EmptyString) && all_digits (drop4 s)).
+Definition cpu_request (v : cfg) : bool :=
+  match v with Leaf (JStr s) => cpu_text s | _ => false end.
 
 (* validate_device on a host without CUDA and without MPS (the harness host) *)
 Definition validate_nogpu (v : cfg) : err + string :=
@@ -180,7 +182,10 @@ Inductive sop :=
 
 Inductive op :=
 | Do (o : sop)
-| With (arg : option cfg) (kw : items) (body : list sop).   (* with set(arg, **kw): body *)
+| With (arg : option cfg) (kw : items) (body : list sop)    (* with set(arg, **kw): body, every
+                                                              statement of the body in its own try/except *)
+| WithX (arg : option cfg) (kw : items) (body : list sop).  (* the first exception raised in the body
+                                                              leaves the with-block (through __exit__) *)
 
 Section Store.
   (* validate_device(value): the normalised device string, or the exception raised *)
@@ -189,7 +194,7 @@ Section Store.
   (* check_key_val: None = value unchanged, Some s = value replaced by the string s *)
   Definition check_dev (k : string) (v : cfg) : err + option string :=
     if String.eqb k "device" then
-      if mentions_cpu v then inr (Some "cpu"%string)
+      if cpu_request v then inr (Some "cpu"%string)
       else match validate v with inl e => inl e | inr s => inr (Some s) end
     else inr None.
 
@@ -256,31 +261,36 @@ Section Store.
     end.
 
   (* ------------------------------------------------------------ set.__exit__ (repaired) *)
-  (* op == "replace": for key in path[:-1]: d = d.setdefault(key, {}); d[path[-1]] = value *)
+  (* REPAIRED behaviour (see /verif/fixes/C19-exit-canonical-names.diff): every component of
+     a recorded path is looked up under the spelling the dict holds now, canonical_name(key, d)
+     (the unrepaired code uses the recorded spelling itself).
+     op == "replace": for key in path[:-1]: d = d.setdefault(cn(key, d), {}); d[cn(path[-1], d)] = value *)
   Fixpoint restore_replace (p : list string) (old : cfg) (d : items) : err + items :=
     match p with
     | [] => inr d
-    | [k] => inr (assign k old d)
+    | [k] => inr (assign (canon k d) old d)
     | k :: p' =>
-        match lookup k d with
+        let k' := canon k d in
+        match lookup k' d with
         | None => match restore_replace p' old [] with
-                  | inl e => inl e | inr s => inr (assign k (Node s) d) end
+                  | inl e => inl e | inr s => inr (assign k' (Node s) d) end
         | Some (Node sub) => match restore_replace p' old sub with
-                             | inl e => inl e | inr s => inr (assign k (Node s) d) end
+                             | inl e => inl e | inr s => inr (assign k' (Node s) d) end
         | Some (Leaf _) => match p' with [_] => inl TypeErr | _ => inl AttrErr end
         end
     end.
 
-  (* op == "insert": walk path[:-1] (KeyError: give up), then d.pop(path[-1], None) *)
+  (* op == "insert": walk path[:-1] (KeyError: give up), then d.pop(cn(path[-1], d), None) *)
   Fixpoint restore_insert (p : list string) (d : items) : err + items :=
     match p with
     | [] => inr d
-    | [k] => inr (remove k d)
+    | [k] => inr (remove (canon k d) d)
     | k :: p' =>
-        match lookup k d with
+        let k' := canon k d in
+        match lookup k' d with
         | None => inr d
         | Some (Node sub) => match restore_insert p' sub with
-                             | inl e => inl e | inr s => inr (assign k (Node s) d) end
+                             | inl e => inl e | inr s => inr (assign k' (Node s) d) end
         | Some (Leaf _) => match p' with [_] => inl AttrErr | _ => inl TypeErr end
         end
     end.
@@ -498,9 +508,28 @@ Section Store.
   Fixpoint run_s (os : list sop) (s : store) : store :=
     match os with [] => s | o :: r => run_s r (fst (step_s o s)) end.
 
+  (* statements up to and including the first one that raises *)
+  Fixpoint run_s_stop (os : list sop) (s : store) : store * option err :=
+    match os with
+    | [] => (s, None)
+    | o :: r => match step_s o s with
+                | (s', Some e) => (s', Some e)
+                | (s', None) => run_s_stop r s'
+                end
+    end.
+
   Definition step (o : op) (s : store) : store * option err :=
     match o with
     | Do o => step_s o s
+    | WithX arg kw body =>
+        match set_call arg kw (conf s) with
+        | (c1, _, Some e) => ({| conf := c1; dflts := dflts s |}, Some e)
+        | (c1, recs, None) =>
+            let (s2, eb) := run_s_stop body {| conf := c1; dflts := dflts s |} in
+            let (c3, ee) := exit_call recs (conf s2) in
+            (* an exception raised by __exit__ replaces the one of the body *)
+            ({| conf := c3; dflts := dflts s2 |}, match ee with Some e => Some e | None => eb end)
+        end
     | With arg kw body =>
         match set_call arg kw (conf s) with
         | (c1, _, Some e) => ({| conf := c1; dflts := dflts s |}, Some e)    (* __init__ raised *)
@@ -521,9 +550,25 @@ Section Store.
     | o :: r => let (s', e) := step_s o s in (s', e) :: trace_s r s'
     end.
 
+  Fixpoint trace_s_stop (os : list sop) (s : store) : list (store * option err) :=
+    match os with
+    | [] => []
+    | o :: r => match step_s o s with
+                | (s', Some e) => [(s', Some e)]
+                | (s', None) => (s', None) :: trace_s_stop r s'
+                end
+    end.
+
   Definition trace_op (o : op) (s : store) : list (store * option err) :=
     match o with
     | Do o => [step_s o s]
+    | WithX arg kw body =>
+        match set_call arg kw (conf s) with
+        | (c1, _, Some e) => [({| conf := c1; dflts := dflts s |}, Some e)]
+        | (c1, recs, None) =>
+            let s1 := {| conf := c1; dflts := dflts s |} in
+            (s1, None) :: trace_s_stop body s1 ++ [step (WithX arg kw body) s]
+        end
     | With arg kw body =>
         match set_call arg kw (conf s) with
         | (c1, _, Some e) => [({| conf := c1; dflts := dflts s |}, Some e)]
